@@ -30,6 +30,30 @@ var commonAssumptions = []string{
 func allChecks() []CheckSpec {
 	return []CheckSpec{
 		{
+			ID: "C04",
+			Harnesses: []HarnessSpec{
+				{Fn: "verifC04TimingFn", Lemma: "connectionStateForDisconnection == oracle(silence, disconnected timeout, failed timeout, current state); zero disables either; Connected->Failed directly only with the disconnected timeout disabled",
+					Bounds: "all durations in [0, 2^62) for both timeouts and the silence, all 7 current states", MustReach: []string{"done"}},
+				{Fn: "verifC04Validate", Lemma: "validateSelectedPair: state after = oracle(silence) (outside a 100 ms band above each threshold), one notification iff changed, Failed releases pairs/transactions/selection/candidates and is reached from Connected only with the disconnected timeout disabled",
+					Bounds: "timeouts 0..1 h, silence 1 ms..3 h (symbolic), current state Connected/Disconnected, 1+1 candidates", MustReach: []string{"failed", "done"}},
+				{Fn: "verifC04InitialDeadline", Lemma: "initial checking deadline = 0 iff failed timeout 0, else (disconnected timeout, or the 5 s full-agent default for a lite agent without explicit timeout) + failed timeout",
+					Bounds: "all durations in [0, 2^62), lite/explicit flags", MustReach: []string{"done"}},
+				{Fn: "verifC04Tick", Lemma: "1..2 check ticks through the real connectivityChecks loop: every notified transition is an edge of the lifecycle graph without repeats, Connected/Disconnected only with a selected pair, a tick while Failed changes nothing, Checking->Failed only with a deadline, Failed releases everything",
+					Bounds: "start states Checking/Connected/Disconnected/Failed, timeouts {default, 0, 1 ns}, silence 1 ms..1 min, 1..2 ticks, both roles", MustReach: []string{"failed-stays", "checking->failed", "->failed", "done"}},
+				{Fn: "verifC04Update", Lemma: "updateConnectionState: exactly one notification carrying the new state iff it changed; the Failed notification is enqueued after the release",
+					Bounds: "all (current, next) state pairs, with/without selection", MustReach: []string{"changed", "done"},
+					Cfg: func(c *HarnessCfg, tier int) { c.GoRunMatch = "EnqueueConnectionState$" }},
+				{Fn: "verifC04Restart", Lemma: "Restart: Connected/Disconnected/Failed/Checking -> Checking, New stays New, one notification iff changed",
+					Bounds: "5 start states", MustReach: []string{"done"}},
+			},
+			Assumptions: append([]string{
+				"clock: arbitrary monotonic readings, successive readings <= 1 ms apart inside a step; thresholds asserted outside a 100 ms band",
+				"time.Timer channels fire a scripted number of times (tick count is the bound); taskloop.Run by contract (C10 assumed)",
+				"dt+ft < 2^63 (durations below 2^62)",
+			}, commonAssumptions...),
+			Outside: "delivery order of the notifier goroutines (C11), 'nothing after Closed' (needs C10), histories longer than 2 ticks from the stated start states",
+		},
+		{
 			ID: "C03",
 			Harnesses: []HarnessSpec{
 				{Fn: "verifC03Controlling", Lemma: "controlling full agent: one authenticated Binding request or success response into the real handleInbound: selection invariant (selected => listed, Succeeded, nominated) preserved; a pair becomes Succeeded only on its own matched response (lite controlled: or on an authenticated nomination); controlling selects only on a matched response whose request carried USE-CANDIDATE; controlled selects on a request only with USE-CANDIDATE/nomination on that very pair and on a response only for a pair nominated earlier; a controlled agent never emits USE-CANDIDATE, a lite controlled agent never emits requests; plain USE-CANDIDATE never lowers the selected priority when priorities are checked",
